@@ -184,7 +184,7 @@ theorem nested_literal_routes (h : Hooks α) (hn : h.fromNestedMeta? = none) (l 
 /-! non-vacuity: a probe overriding only `from_string` and `from_list` -/
 def probe : Hooks String :=
   { fromString? := some (fun s => .ok ("string:" ++ s)), fromList? := some (fun xs => .ok ("list:" ++ toString xs.length)) }
-def pX : Path := ⟨false, ["x"], true, "x", ⟨0, 1⟩⟩
+def pX : Path := { global := false, segs := ["x"], plain := true, toks := "x", span := ⟨0, 1⟩ }
 example : probe.fromMeta (.nameValue pX (.group (.lit ⟨.str "v", "\"v\"", ⟨4, 7⟩⟩) ⟨4, 7⟩) "" ⟨0, 7⟩) = .ok "string:v" := rfl
 example : probe.fromMeta (.path pX) = .err (.leaf (.unexpectedFormat "word") [] (some ⟨0, 1⟩)) := rfl
 example : probe.fromMeta (.nameValue pX (.lit ⟨.bool true, "true", ⟨4, 8⟩⟩) "" ⟨0, 8⟩)
